@@ -33,6 +33,8 @@ def ws2dgu(y, lmda, nodata, out):
         n = np.sum(w)
 
         if n > 1:
+            # masked cells may hold nan/inf: 0 * nan would poison the solve
+            y = np.where(w > 0, y, 0.0)
             z = ws2d(y, lmda, w)
             np.round(z, 0, out)
         else:
